@@ -1,6 +1,7 @@
 import WhVerif.Util.Proto
 import WhVerif.Model.C13
 import WhVerif.Model.C13Bridge
+import WhVerif.Spec.C13Edit
 import WhVerif.Model.C04Json
 namespace WhVerif.Driver.C13
 open Lean WhVerif.Proto WhVerif.C13
@@ -81,5 +82,10 @@ def handle (op : String) (j : Json) : Option Json :=
     | some rs => some (Json.mkObj [("plain", ofList recordJson (rs.map ofC04)),
                                    ("unphased", ofList recordJson (unphase (rs.map ofC04)))])
     | none => some badInput
+  else if op == "c13.isedit" then
+    -- `{a: records, b: records}` → `{edit: editB a b, same: unphase a = unphase b}`
+    match (getList? j "a").bind (·.mapM parseRecord), (getList? j "b").bind (·.mapM parseRecord) with
+    | some a, some b => some (Json.mkObj [("edit", Json.bool (editB a b)), ("same", Json.bool (decide (unphase b = unphase a)))])
+    | _, _ => some badInput
   else none
 end WhVerif.Driver.C13
